@@ -30,7 +30,6 @@ pub const FIXED_CANDIDATES: [InputKind; 16] = [
     InputKind::Slice(1000),
 ];
 
-pub const DRAWN_CAPS: [usize; 10] = [9, 10, 11, 12, 17, 24, 32, 33, 129, 1000];
 
 pub fn work_budget(n_chars: usize) -> u64 {
     200 * (n_chars as u64 + 16)
@@ -65,8 +64,9 @@ pub fn generate(run_seed: u64, corpus: &Corpus, sw: &Swarm, i: u64, exhaustive: 
     let n = text.chars().count();
     let eof_at = if n > 0 && r.chance(1, 4) { Some(r.usize(n)) } else { None };
     let extra_inputs = vec![
-        InputKind::Ring(*r.pick(&DRAWN_CAPS), Policy::PerCall),
-        InputKind::Slice(*r.pick(&DRAWN_CAPS)),
+        InputKind::Ring(Gen::draw_capacity(&mut r), Policy::PerCall),
+        InputKind::Ring(Gen::draw_capacity(&mut r), *r.pick(&[Policy::PushBack, Policy::Leave])),
+        InputKind::Slice(Gen::draw_capacity(&mut r)),
     ];
     Case {
         prop: "C10".into(),
